@@ -372,6 +372,62 @@ def _mean(t, dim=None, keepdim=False, keepdims=None):
 
 
 TF["mean"] = _mean
+
+
+def _var(t, dim=None, unbiased=True, keepdim=False, correction=None):
+    """torch.var (documented definition): sum of squared deviations from the mean over dim, divided by n - correction
+    (Bessel's correction 1 by default); WF obligation n - correction > 0."""
+    if correction is None:
+        correction = 1 if unbiased else 0
+    if dim is None:
+        dims = list(range(t.rank))
+    elif isinstance(dim, (tuple, list)):
+        dims = [norm_dim(d, t.rank) for d in dim]
+    else:
+        dims = [norm_dim(dim, t.rank)]
+    n = ops._prod([t.shape[d] for d in dims])
+    m = _mean(t, tuple(dims), keepdim=False)
+    ms = m.snap()
+    ts = ops.to_dtype(t, "f").snap()
+    outer = [d for d in range(t.rank) if d not in dims]
+    dev = mk(t.shape, "f", lambda I: (ts(I) - ms(tuple(I[d] for d in outer))) * (ts(I) - ms(tuple(I[d] for d in outer))))
+    ssq = reduce("sum", dev, tuple(dims), keepdim)
+    den = ops.scalar_binop("sub", n, correction, wf=False)
+    cur().wf("var-positive-denominator", zint(den) > 0)
+    return binop("truediv", ssq, den)
+
+
+TM["var"] = _var
+TF["var"] = _var
+
+
+def _matmul(a, b):
+    """torch.matmul / bmm for operands of rank >= 2 (documented definition, reals): leading dims broadcast,
+    out[..., i, j] = sum_k a[..., i, k] * b[..., k, j]; WF obligation: the contracted sizes agree."""
+    from .core import broadcast_shapes, bidx
+
+    if a.rank < 2 or b.rank < 2:
+        raise Unsupported("matmul with a rank-1 operand")
+    ctx = cur()
+    if not ctx.same(a.shape[-1], b.shape[-2]):
+        ctx.wf(f"matmul-inner-dims {a.shape[-1]} vs {b.shape[-2]}", zint(a.shape[-1]) == zint(b.shape[-2]))
+    lead = tuple(broadcast_shapes(ctx, [a.shape[:-2], b.shape[:-2]]))
+    r = len(lead)
+    as_, bs_ = ops.to_dtype(a, "f").snap(), ops.to_dtype(b, "f").snap()
+    la, lb = tuple(a.shape[:-2]), tuple(b.shape[:-2])
+
+    def elem(I):
+        L, i, j, k = tuple(I[:r]), I[r], I[r + 1], I[r + 2]
+        return as_(tuple(bidx(L, la, r)) + (i, k)) * bs_(tuple(bidx(L, lb, r)) + (k, j))
+
+    prod = mk(lead + (a.shape[-2], b.shape[-1], a.shape[-1]), "f", elem)
+    return reduce("sum", prod, -1, label="matmul")
+
+
+TF["matmul"] = _matmul
+TF["bmm"] = _matmul
+TM["matmul"] = _matmul
+TM["bmm"] = _matmul
 TM["norm"] = lambda t, p=2, dim=-1, keepdim=False: ops.norm(t, p, dim, keepdim)
 TF["norm"] = TM["norm"]
 
